@@ -41,6 +41,10 @@ type Result struct {
 }
 
 func (r *Result) Violate(sig, format string, a ...any) {
+	if len(r.Violations) >= 40 {
+		r.Add("violations_not_listed", 1)
+		return
+	}
 	d := fmt.Sprintf(format, a...)
 	if len(d) > 2000 {
 		d = d[:2000] + "…"
